@@ -91,8 +91,15 @@ func (p *Prog) modSet(fn *ssa.Function, stack map[*ssa.Function]bool) map[memKey
 	stack[fn] = true
 	defer delete(stack, fn)
 	m := map[memKey]bool{}
+	fi := p.Info(fn)
 	for _, b := range fn.Blocks {
 		for _, in := range b.Instrs {
+			if st, ok := in.(*ssa.Store); ok {
+				// writes into a local object that never escapes are invisible to callers
+				if al := rootAlloc(st.Addr); al != nil && al.Parent() == fn && !fi.addrEscapes(al) {
+					continue
+				}
+			}
 			instrWrites(p, in, m, stack)
 		}
 	}
@@ -252,12 +259,15 @@ func (fi *FuncInfo) Version(keys map[memKey]bool, at ssa.Instruction) string {
 				break
 			}
 		}
-		if !hit || w.in == at {
+		if !hit {
 			continue
 		}
 		wb := w.in.Block().Index
 		wi := mi.instrIdx[w.in]
 		before := (wb == ab && wi < ai) || (wb != ab && mi.reach[wb][ab])
+		if w.in == at {
+			before = false
+		}
 		inLoop := false
 		for _, h := range mi.loopsOf[ab] {
 			if mi.loopBlock[h][wb] {
@@ -304,3 +314,19 @@ func (fi *FuncInfo) ElemPath(m string, mapType types.Type, key string, at ssa.In
 }
 
 var _ = token.MUL
+
+func rootAlloc(a ssa.Value) *ssa.Alloc {
+	for d := 0; d < 16; d++ {
+		switch x := a.(type) {
+		case *ssa.FieldAddr:
+			a = x.X
+		case *ssa.IndexAddr:
+			a = x.X
+		case *ssa.Alloc:
+			return x
+		default:
+			return nil
+		}
+	}
+	return nil
+}
